@@ -461,3 +461,118 @@ Arguments spec_step {key val}.
 Arguments spec_run {key val}.
 Arguments op_pre {key val}.
 Arguments adm_run {key val}.
+
+(* ---------------- several objects and the global string-hash selection ----------------
+   json_global_set_string_hash(h) sets the file-static char_hash_fn of linkhash.c;
+   lh_kchar_table_new (json_object_new_object) copies the CURRENT selection into
+   t->hash_fn, and nothing else ever reads it: a table keeps the hash function it was
+   created with.  [hashes s] is the string hash selected by s (0 = lh_char_hash with
+   whatever seed, 1 = perl-like); like [hash] above it is an arbitrary Section variable. *)
+Section LhWorld.
+Variables key val : Type.
+Variable keq : key -> key -> bool.
+Variable hashes : Z -> key -> Z.
+
+Record gobj := mkgobj { o_sel : Z; o_tab : table key val }.     (* o_sel: what t->hash_fn is *)
+Record world := mkworld { g_sel : Z; objs : list gobj }.        (* g_sel: char_hash_fn *)
+
+Definition world0 : world := mkworld 0 [].                     (* char_hash_fn = lh_char_hash *)
+
+(* json_global_set_string_hash: new selection and return value *)
+Definition set_string_hash (g h : Z) : Z * Z :=
+  if (h =? 0) || (h =? 1) then (h, 0) else (g, -1).
+
+Inductive gop :=
+| GSetHash (h : Z)                    (* json_global_set_string_hash(h) *)
+| GNew (size : Z)                     (* json_object_new_object (size 16 there) *)
+| GOp (i : nat) (o : op key val).     (* an operation on the i-th object *)
+
+Fixpoint lupd {A} (l : list A) (i : nat) (x : A) : list A :=
+  match l, i with
+  | [], _ => []
+  | _ :: r, O => x :: r
+  | a :: r, S j => a :: lupd r j x
+  end.
+
+Definition gstep (al : alloc) (w : world) (g : gop) : option (world * bool) :=
+  match g with
+  | GSetHash h => let '(g', r) := set_string_hash (g_sel w) h in
+                  Some (mkworld g' (objs w), r =? 0)
+  | GNew size => Some (mkworld (g_sel w) (objs w ++ [mkgobj (g_sel w) (table_new key val size)]), true)
+  | GOp i o =>
+      match nth_error (objs w) i with
+      | None => None
+      | Some ob =>
+          match obj_step keq (hashes (o_sel ob)) al (o_tab ob) o with
+          | Some (t', b) => Some (mkworld (g_sel w) (lupd (objs w) i (mkgobj (o_sel ob) t')), b)
+          | None => None
+          end
+      end
+  end.
+
+Fixpoint grun (al : alloc) (w : world) (gs : list gop) : option (world * list bool) :=
+  match gs with
+  | [] => Some (w, [])
+  | g :: r => match gstep al w g with
+              | Some (w', b) => match grun al w' r with
+                                | Some (q, bs) => Some (q, b :: bs)
+                                | None => None
+                                end
+              | None => None
+              end
+  end.
+
+(* specification: a list of association lists; the selection is invisible *)
+Definition gspec_step (ms : list (amap key val)) (g : gop) (ok : bool) : list (amap key val) :=
+  match g with
+  | GSetHash _ => ms
+  | GNew _ => ms ++ [[]]
+  | GOp i o => match nth_error ms i with
+               | Some m => lupd ms i (spec_step keq m o ok)
+               | None => ms
+               end
+  end.
+
+Fixpoint gspec_run (ms : list (amap key val)) (gs : list gop) (oks : list bool) : list (amap key val) :=
+  match gs, oks with
+  | g :: r, b :: bs => gspec_run (gspec_step ms g b) r bs
+  | _, _ => ms
+  end.
+
+Definition world_abs (w : world) : list (amap key val) := map (fun ob => obj_iter (o_tab ob)) (objs w).
+
+Definition gop_pre (w : world) (g : gop) : Prop :=
+  match g with
+  | GSetHash _ => True
+  | GNew size => 0 < size <= INT_MAX
+  | GOp i o => exists ob, nth_error (objs w) i = Some ob /\ op_pre keq (obj_iter (o_tab ob)) o
+  end.
+
+Fixpoint gadm_run (al : alloc) (w : world) (gs : list gop) : Prop :=
+  match gs with
+  | [] => True
+  | g :: r => and (gop_pre w g)
+                  (match gstep al w g with
+                   | Some (w', _) => gadm_run al w' r
+                   | None => True
+                   end)
+  end.
+
+End LhWorld.
+
+Arguments mkgobj {key val}.
+Arguments o_sel {key val}.
+Arguments o_tab {key val}.
+Arguments mkworld {key val}.
+Arguments g_sel {key val}.
+Arguments objs {key val}.
+Arguments GSetHash {key val}.
+Arguments GNew {key val}.
+Arguments GOp {key val}.
+Arguments gstep {key val}.
+Arguments grun {key val}.
+Arguments gspec_step {key val}.
+Arguments gspec_run {key val}.
+Arguments world_abs {key val}.
+Arguments gop_pre {key val}.
+Arguments gadm_run {key val}.
